@@ -1,4 +1,6 @@
 """C03 generator: circuit breakers of the three strategies, event sequences over {enter, complete ok/error/slow, advance}."""
+import importlib.util as _ilu, os as _os
+_ms = _ilu.spec_from_file_location("worldmix", _os.path.join(_os.path.dirname(__file__), "worldmix.py")); MIX = _ilu.module_from_spec(_ms); _ms.loader.exec_module(MIX)
 LEVEL = "proof"
 MODEL = "lean/Sentinel/Breaker.lean (Breaker.tryPass, onComplete, rollback, resetMetric, brSlot) + World.build/exit"
 RULE = ("one or two breakers per resource: strategy in {slow-ratio, error-ratio, error-count}, min_request_amount 0..4, thresholds on/around k/m boundaries, "
@@ -97,6 +99,12 @@ def scenario_case(rng):
     return ops
 
 
-def gen(rng, tier):
+def gen_own(rng, tier):
     n = 300 if tier == "quick" else 15000
     return [gen_case(rng) for _ in range(n)] + [scenario_case(rng) for _ in range(n)]
+
+
+def gen(rng, tier):
+    """the property's own streams, with every 8th case taken from the shared mixed-world stream (gen/worldmix.py)"""
+    cases = gen_own(rng, tier)
+    return [c if i % 8 != 7 else MIX.gen_mix(rng) for i, c in enumerate(cases)]
